@@ -7,6 +7,9 @@ not re-run).  Prints which seeds are still detected, which no longer apply
 import glob, json, os, subprocess, sys
 VERIF = os.path.dirname(os.path.dirname(os.path.abspath(__file__)))
 PY = '/venv/bin/python'
+sys.path.insert(0, os.path.dirname(os.path.abspath(__file__)))
+import _snap  # noqa: E402
+SNAP = _snap.snapshot()
 
 def sh(cmd, cwd=None):
   p = subprocess.run(cmd, cwd=cwd, stdout=subprocess.PIPE, stderr=subprocess.STDOUT, text=True)
@@ -31,7 +34,7 @@ def main():
       props = sorted(det) or [name.split('-')[0]]
       hits = []
       for p in props:
-        rc, out = sh([PY, os.path.join(VERIF, 'tflsa', 'check.py'), p, '--repo', wt, '--no-evidence'])
+        rc, out = sh([PY, os.path.join(SNAP, 'tflsa', 'check.py'), p, '--repo', wt, '--no-evidence'])
         hits.append('%s:%s' % (p, {0: 'silent', 1: 'VIOLATION', 2: 'exit2'}.get(rc, rc)))
       was_exit2 = det and all(v.get('exit') == 2 for v in det.values())
       status = 'detected' if any('VIOLATION' in h for h in hits) else (
